@@ -102,6 +102,9 @@ pub struct Pipe {
     pub cut_in_padding: u64,
     pub pending_reads: u64,
     pub pending_writes: u64,
+    /// transport calls made after a terminal result (EOF / injected error) was returned
+    pub calls_after_terminal: u64,
+    pub terminal_returned: bool,
 }
 
 pub type Shared = Arc<Mutex<Pipe>>;
@@ -135,7 +138,20 @@ impl Pipe {
             cut_in_padding: 0,
             pending_reads: 0,
             pending_writes: 0,
+            calls_after_terminal: 0,
+            terminal_returned: false,
         }))
+    }
+
+    /// A task that keeps calling the transport after EOF / an error without ever yielding is
+    /// spinning; unwinding out of the poll turns the would-be hang into a reportable event.
+    fn note_call(&mut self, write: bool) {
+        // reads after a read-side terminal result, writes after a write-side one
+        let armed = if write { self.write_fault_fired_at.is_some() } else { self.terminal_returned };
+        if armed {
+            self.calls_after_terminal += 1;
+            assert!(self.calls_after_terminal < 2000, "spin: more than 2000 transport calls after end-of-file / an I/O error was reported");
+        }
     }
 
     fn ev(&mut self, e: Ev) {
@@ -199,9 +215,11 @@ impl AsyncRead for Reader {
     fn poll_read(self: Pin<&mut Self>, cx: &mut Context<'_>, buf: &mut [u8]) -> Poll<io::Result<usize>> {
         let mut p = self.0.lock().unwrap();
         p.read_calls += 1;
+        p.note_call(false);
         if let Some((k, kind)) = p.read_fault {
             if p.read_calls >= k {
                 p.read_fault = None;
+                p.terminal_returned = true;
                 p.ev(Ev::ReadErr);
                 return Poll::Ready(Err(kind.into()));
             }
@@ -212,6 +230,7 @@ impl AsyncRead for Reader {
         };
         if avail == 0 {
             if p.effective_eof() {
+                p.terminal_returned = true;
                 p.ev(Ev::ReadEof);
                 return Poll::Ready(Ok(0));
             }
@@ -247,6 +266,7 @@ impl Writer {
         // Ok(poll) = decided without accepting bytes; Err(n) = accept n bytes
         let mut p = self.0.lock().unwrap();
         p.write_calls += 1;
+        p.note_call(true);
         if let Some((k, f)) = p.write_fault {
             if p.write_calls >= k {
                 p.write_fault = None;
